@@ -86,6 +86,8 @@ def closure(fwd, i):
 def run_file(case):
     """everything for one file: index/refs/deps comparison + BFS over loaded sets"""
     lz, eg = _W['lz'], _W['eg']
+    lz.recycle_if_big()
+    eg.recycle_if_big()
     text = file_of(case['insts'])
     path = os.path.join(lz.dir, 'in.stp')
     with open(path, 'w', encoding='latin1') as f:
@@ -184,6 +186,19 @@ def run_file(case):
                         break
                 if bad:
                     continue
+                # the tables describe the file, not the session: they must not change with what has been loaded
+                for iid in sorted(eager):
+                    d = lzcmd('deps %d' % iid)[0].decode().split()[1:]
+                    want = closure(want_fwd, iid)
+                    if set(int(x) for x in d) != want and not any(v[0].startswith('dependencies/') for v in viol):
+                        viol.append(('dependencies-after-load/%s' % ('cycle' if iid in want else ctx), 'after loads %s the dependencies of #%d are %s, transitive closure of the forward table is %s' % (
+                            hist + [i], iid, sorted(int(x) for x in d), sorted(want)), dict(case, history=hist + [i])))
+                f2 = {}
+                for l in lzcmd('fwd'):
+                    f = l.decode().split(' ')
+                    f2[int(f[1])] = [int(x) for x in f[2].split(',') if x]
+                if f2 != got_fwd:
+                    viol.append(('forward-refs-after-load/%s' % ctx, 'after loads %s the forward table is %s, before %s' % (hist + [i], f2, got_fwd), dict(case, history=hist + [i])))
                 s = frozenset(hist + [i])
                 if s not in seen:
                     seen[s] = hist + [i]
